@@ -30,7 +30,7 @@ fn strip_volatile(v: &mut Value) {
 pub fn run(p: &Params, rep: &mut Report) {
     rep.rule = "final states of seeded op-histories (removals -> gaps, protect_text, all selector kinds, id-less items) are saved with a .cbor name and loaded again; compared: the hooked dump of every store, id map, reverse index and position index entry by entry, the full canonical observation WITH handles and all reverse lookups, segmentation/find_text/related_text answers, the rows of 8 seeded queries per store, and the STAM JSON serialisation of both stores under an explicit JSON config. distinct_nontrivial = distinct (store shape, has-gaps, shrink_to_fit on load) tuples".into();
     rep.assumptions = vec!["`changed` flags, the serialize-mode cell and the caller-supplied debug/shrink_to_fit settings are run-time state and excluded from the dump comparison".into()];
-    let total: u64 = if p.thorough { 10000 } else { 400 };
+    let total: u64 = if p.thorough { 10000 } else { 5000 };
     for k in p.cases(total) {
         rep.current_case = p.case_coord(k);
         rep.cases += 1;
